@@ -238,6 +238,26 @@ func RenderJSON(t any) []byte {
 	return b
 }
 
+// RenderJSONASCII renders JSON in which every character outside printable ASCII is written as
+// \uXXXX (surrogate pairs above the BMP): bytes every JSON and every YAML reader accepts,
+// whatever the strings contain.
+func RenderJSONASCII(t any) []byte {
+	src := RenderJSON(t)
+	out := make([]byte, 0, len(src)+16)
+	for _, r := range string(src) {
+		switch {
+		case r < 0x7f:
+			out = append(out, byte(r))
+		case r < 0x10000:
+			out = append(out, fmt.Sprintf("\\u%04x", r)...)
+		default:
+			r -= 0x10000
+			out = append(out, fmt.Sprintf("\\u%04x\\u%04x", 0xd800+(r>>10), 0xdc00+(r&0x3ff))...)
+		}
+	}
+	return out
+}
+
 func RenderYAML(t any) []byte {
 	b, err := yaml3.Marshal(t)
 	if err != nil {
